@@ -12,7 +12,7 @@ from anytree.exporter import MermaidExporter
 from .. import forest, refs, shapes, strategies
 from ..core import Violation
 from . import c06
-from .c12 import check_locale, NAME, NODE_CLASSES, TOKEN, decode_name, exotic_names, aborted_iterations, esc, expected_structure, special_names, tripwired
+from .c12 import check_gc, check_locale, NAME, NODE_CLASSES, TOKEN, decode_name, exotic_names, aborted_iterations, esc, expected_structure, special_names, tripwired
 
 PROP_ID = "C13"
 LEVEL = "exploration"
@@ -34,6 +34,8 @@ ASSUMPTIONS = [
 def check_case(case, acc):
     if case.get("kind") == "locale":
         return check_locale(case, acc)
+    if case.get("kind") == "gc":
+        return check_gc(case, acc, exporter_cls=MermaidExporter, node_re=r'^(\w+)\["([^"]*)"\]$', edge_re=r'^(\w+)-->(\w+)$', closing=False)
     names = case["names"]
     nodecls = NODE_CLASSES[case.get("cls", "Node")]
     tree = forest.build_tree(case["shape"], lambda i: nodecls(decode_name(names[i])))
@@ -140,6 +142,16 @@ def _once(case, acc, tree, labels):
         second = list(exporter)
         if head + list(it1) != lines or second != lines:
             raise Violation("identifier-stability", "%s: interleaved iterations of one exporter disagree" % ctx)
+        # ... and two iterations that really overlap: the first has emitted its node statements, a second one is started and
+        # advanced a little, the first one is finished, then the second
+        it1 = iter(exporter)
+        head = [next(it1) for _ in range(1 + len(options) + len(declared))]
+        it2 = iter(exporter)
+        part = [next(it2) for _ in range(min(2, len(lines)))]
+        rest1 = list(it1)
+        rest2 = list(it2)
+        if head + rest1 != lines or part + rest2 != lines:
+            raise Violation("overlapping-iterations", "%s: two overlapping iterations of one exporter give %r and %r instead of twice %r" % (ctx, head + rest1, part + rest2, lines))
         known = dict(ident)
         # the same exporter after the tree has grown ...
         extra = Node("extra-first-child")
@@ -264,12 +276,20 @@ def plan(tier, seed):
     examples = 150 if tier == "quick" else 1200
     tasks = [{"engine": "enum", "max_nodes": max_nodes, "index": i, "count": nshards * 2} for i in range(nshards * 2)]
     tasks += [{"engine": "hyp", "examples": examples, "seed": seed * 1000 + i} for i in range(nshards)]
-    tasks += [{"engine": "locale"}]
+    tasks += [{"engine": "locale"}, {"engine": "gc"}]
     tasks += [{"engine": "wide", "widths": [w]} for w in ((300, 700) if tier == "quick" else (257, 300, 700, 1100, 2500))]
     return tasks
 
 
 def run_task(task, acc):
+    if task["engine"] == "gc":
+        for victims in ([0], [1, 0, 2], [2, 2, 2, 0], [3, 1, 4, 1, 0], [0, 0, 0, 0]):
+            case = {"kind": "gc", "width": 5, "victims": victims}
+            exc = acc.evaluate(check_case, case, enumerated=False)
+            if exc is not None:
+                acc.add_violation(case, exc)
+                break
+        return
     if task["engine"] == "locale":
         case = {"kind": "locale", "which": "mermaid"}
         exc = acc.evaluate(check_case, case, enumerated=False)
